@@ -7,7 +7,7 @@ from . import c05
 PROPERTY = 'C12'
 BUDGET = {'quick': {'seconds': 1500, 'xreplay_every': 100}, 'thorough': {'seconds': 6000, 'xreplay_every': 2000}}
 NONTRIVIAL = {'quick': ['resume.publish', 'resume.pubrel', 'resume.held-back', 'resume.released-by-window', 'clean-reconnect.cleared', 'early-publish.persistent',
-                        'early-publish.clean', 'late-publish', 'completed-after-resume', 'second-loss', 'nothing-carried']}
+                        'early-publish.clean', 'late-publish', 'completed-after-resume', 'second-loss', 'nothing-carried', 'lost-before-connack', 'qos0-queued']}
 
 KINDS = ('publish', 'PUBACK', 'PUBREC', 'PUBCOMP', 'advance', 'LOSS')
 
@@ -46,7 +46,7 @@ def h_persist(eng, params):
             if kind == 'LOSS':
                 break
             if kind == 'publish':
-                flow.publish(qos=eng.int('qos', 1, 2))
+                flow.publish(qos=eng.int('qos', 0, 2) if params.get('qos0') else eng.int('qos', 1, 2))
             elif kind == 'advance':
                 flow.advance(hi=100)
             else:
@@ -64,6 +64,9 @@ def h_persist(eng, params):
         for r in pubs:
             eng.check(len(r.tr.fired) == before[r.order], 'publish-fired-at-loss', 'a persistent-session loss fired a publish Deferred')
         carried = [r for r in pubs if not r.tr.fired]
+        if any(r.tr.fired and r.tr.fired[0][2] is None and not any(p['type'] == 'PUBLISH' and all_eq(p['topic'], r.topic) is True for (s_, c_, p) in flow.all_packets())
+               for r in pubs):
+            eng.count('qos0-queued')
         stages = dict((r.order, stage_of(flow, r, ls + 1)) for r in carried)
         if not carried:
             eng.count('nothing-carried')
@@ -77,6 +80,22 @@ def h_persist(eng, params):
         if params.get('early') if rnd == 0 else params.get('early2', 0):
             early = flow.publish(qos=eng.int('qos', 1, 2))
             eng.check(early.accepted(), 'early-publish-refused')
+        if params.get('lost_before_connack') and rnd == 0:
+            # the connection dies between CONNECT and CONNACK: whatever the session holds must survive a persistent one
+            pend0 = [r for r in flow.reqs if r.kind == 'publish' and r.tr is not None and r.accepted() and not r.tr.fired]
+            flow.lose(clean_close=False)
+            if as_int(clean) == 1:
+                return flow.finish()
+            eng.count('lost-before-connack')
+            for r in pend0:
+                eng.check(not r.tr.fired, 'publish-fired-at-loss', 'the loss of a persistent connection that never got its CONNACK fired a publish Deferred',
+                          sig='publish-fired-at-loss:before-connack')
+            flow.open(connack=False, clean=False)
+            c2 = flow.c
+            clean = c2.clean
+            carried = pend0
+            stages = dict((r.order, stage_of(flow, r, len(w.steps))) for r in carried)
+            early = None
         cs = flow.connack(eng.int('sp', 0, 1))
         pk = flow.packets(c2, cs)
         cleaned = as_int(clean) == 1
@@ -202,6 +221,13 @@ def shards(tier):
                                 continue
                             out.append(('persist', {'profile': profile, 'rounds': 1, 'k': 4 if T else 3, 'first': first, 'newwindow': newwindow,
                                                     'early': early, 'late': late, 'broker': broker}))
+        for first in KINDS:
+            if first in ('advance', 'PUBCOMP') and not T:
+                continue
+            out.append(('persist', {'profile': profile, 'rounds': 1, 'k': 4 if T else 3, 'first': first, 'newwindow': 0, 'early': 1, 'late': 0,
+                                    'broker': 'ack-all', 'lost_before_connack': True}))
+            out.append(('persist', {'profile': profile, 'rounds': 1, 'k': 4, 'first': first, 'newwindow': 0, 'early': 1, 'late': 0,
+                                    'broker': 'ack-all', 'qos0': True}))
         for early in (0, 1):
             for early2 in (0, 1):
                 for first in (('publish', 'PUBREC', 'LOSS') if not T else KINDS):
@@ -214,9 +240,9 @@ META = {
     'rule': 'persistent-session client, window symbolic; per round up to k free steps from {publish(QoS symbolic 1..2), PUBACK/PUBREC/PUBCOMP with symbolic identifier, '
             'advance(dt symbolic)} cut by a loss at any point; then a rebuilt protocol (optionally setWindowSize(symbolic)), connect(cleanStart symbolic), 0..1 publish before '
             'CONNACK, CONNACK(session byte symbolic), 0..1 publish after; finally a broker that acknowledges everything twice, or stays silent, and 1000 s',
-    'bounds': {'quick': 'one round with k<=3, two rounds with k<=2', 'thorough': 'one round with k<=4, two rounds with k<=3'},
+    'bounds': {'quick': 'one round with k<=3, two rounds with k<=2; variants: the rebuilt connection is lost before its CONNACK; publishes of QoS 0..2 (k<=4)', 'thorough': 'one round with k<=4, two rounds with k<=3'},
     'stubs': ['fake transport with asynchronous loss', 'twisted task.Clock', 'jitter: fixed sequence'],
-    'outside': ['more than two losses in a row', 'QoS 0 publishes (C10)', 'subscribe/unsubscribe across the loss (C07)'],
+    'outside': ['more than two losses in a row', 'subscribe/unsubscribe across the loss (C07)'],
     'assumptions': ['acknowledgement types fit the exchange they may address'],
 }
 
